@@ -237,6 +237,8 @@ def r3_nothing_dropped(a, tier):
         dict(name='fresh', params=(), kwparams={}, base=None, is_name=False, no_memo=True),
         dict(name='typed', params=('Node', 'Other'), kwparams={'k': 'v'}, base=None, is_name=True, no_memo=True),
         dict(name='derived', params=(), kwparams={}, base='basic', is_name=False, no_memo=False),
+        dict(name='strparams', params=('123', 'True'), kwparams={'k': '7'}, base=None, is_name=False, no_memo=False),
+        dict(name='mixed', params=(123, 'abc'), kwparams={}, base=None, is_name=False, no_memo=False),
     ]
     rp = a.p.func('tatsu.peg.base.Rule._pretty')
     for c in rule_cases:
@@ -260,9 +262,9 @@ def r3_nothing_dropped(a, tier):
                 problems.append(f'@name {"lost" if c["is_name"] else "invented"}')
             if ('nomemo' in r.decorators) != c['no_memo']:
                 problems.append(f'@nomemo {"lost" if c["no_memo"] else "invented"}')
-            if tuple(r.params) != tuple(c['params']):
+            if tuple(r.params) != tuple(c['params']) or [type(x) for x in r.params] != [type(x) for x in c['params']]:
                 problems.append(f'params {list(r.params)} != {list(c["params"])}')
-            if dict(r.kwparams) != {k: str(v) for k, v in c['kwparams'].items()}:
+            if dict(r.kwparams) != dict(c['kwparams']) or [type(v) for v in dict(r.kwparams).values()] != [type(v) for v in c['kwparams'].values()]:
                 problems.append(f'kwparams {dict(r.kwparams)} != {c["kwparams"]}')
             if (r.base or None) != c['base']:
                 problems.append(f'base {r.base} != {c["base"]}')
@@ -304,6 +306,29 @@ def r3_nothing_dropped(a, tier):
             rep.add({'directive': k, 'given': v, 'printed_reads_as': bv, 'ok': ok})
             if not ok:
                 rep.fail(gp.qualname, f'directive:{k}', f'directive @@{k} :: {v!r} is printed so that it reads back as {bv!r}', gp.loc)
+    # a directive that switches whitespace skipping off (stored as '' or None) must print, and read back as "off"
+    for what, ws in (("whitespace '' (from @@whitespace :: None)", ''), ('whitespace None', None)):
+        g2 = Stub('tatsu.peg.base.Grammar', directives={'whitespace': ws}, keywords=(), rules=(rule,), name='Demo')
+        it = _interp(a)
+        try:
+            text = str(it.call_bound(Bound(g2, gp), [], {'lean': False}))
+            err = None
+        except Unsupported as e:
+            raise AnalysisError(f'cannot interpret Grammar._pretty: {e}') from e
+        except Exception as e:  # noqa: BLE001 - an exception of the interpreted printer
+            text, err = None, f'raises {type(e).__name__}: {e}'
+        if err is None:
+            try:
+                back = parse_ebnf(text)
+                bv = back.directives.get('whitespace', '<absent>')
+                if bv not in ('', None, 'None'):
+                    err = f'prints `{text.splitlines()[0] if text else ""}`, which reads back as whitespace={bv!r}'
+            except FrontEndError as e:
+                err = f'prints text the grammar language cannot read: {e}'
+        rep.add({'preamble': what, 'problem': err})
+        if err:
+            rep.fail(gp.qualname, f'preamble:{what}', f'Grammar._pretty for a grammar with {what} {err}: pretty-printing such a model fails '
+                     f'or changes its whitespace handling', gp.loc)
     return rep
 
 
